@@ -393,14 +393,20 @@ func (bv *bview) produceAttesterSlashing(mc *MsgCase, clockMs int64) (*plan, str
 		}
 	case "S-DUP", "S-DUP-WITH-SLASHED-MEMBER":
 	case "S-NOT-SLASHABLE-DATA":
-		if mc.C%2 == 0 {
+		if mc.C%3 == 0 {
 			m.A2, _ = bv.signIndexed(head, i2, d1) // identical data
 		} else {
 			d3 := d1
 			d3.Target.Epoch = d1.Target.Epoch + 1 // different targets, equal sources: neither double nor surround
 			d3.Slot = sp.StartSlotAtEpoch(d3.Target.Epoch)
 			d3.Source = d1.Source
-			m.A2, _ = bv.signIndexed(head, i2, d3)
+			if mc.C%3 == 1 {
+				m.A2, _ = bv.signIndexed(head, i2, d3)
+			} else {
+				// ... with the LATER target in attestation 1 (successive honest votes while justification stalls, listed newest first)
+				m.A1, _ = bv.signIndexed(head, i1, d3)
+				m.A2, _ = bv.signIndexed(head, i2, d1)
+			}
 		}
 	case "S-UNSORTED":
 		if len(i1) < 2 {
